@@ -25,6 +25,9 @@ def main():
     import gen_geo
     r6 = gen_geo.generate(os.path.join(GEN, 'Geo.lean'))
     print('generated:', {'Geo': r6['unsupported']})
+    import gen_checker
+    r7 = gen_checker.generate(os.path.join(GEN, 'CheckerRules.lean'))
+    print('generated:', {'CheckerRules': r7['unsupported'], 'rules': len(r7['rules'])})
     for extra in ('tables_xml',):
         try:
             mod = __import__(extra)
